@@ -201,23 +201,23 @@ func (r *Run) writeEvidence(evdir string, discharged, nviol int, knownHit []Obli
 		distinct[o.Rule+"|"+o.Construct] = true
 	}
 	cov := map[string]interface{}{
-		"explanation": r.Explain,
-		"obligations": len(r.Obls),
-		"discharged":  discharged,
-		"evaluations": len(r.Obls),
+		"explanation":         r.Explain,
+		"obligations":         len(r.Obls),
+		"discharged":          discharged,
+		"evaluations":         len(r.Obls),
 		"distinct_nontrivial": len(distinct),
-		"rule": "one obligation per (rule, construct) instance found in /repo's working tree on this run; distinct = distinct (rule,construct) keys; every obligation names a typed construct and is non-trivial (decided from SSA/CFG/call-graph facts, not from text)",
-		"samples":          samples,
-		"per_rule":         perRule,
-		"units_analysed":   r.Units,
-		"packages":         len(r.P.Pkgs),
-		"files":            r.P.NFiles,
-		"functions_loaded": len(r.P.ModFns),
-		"known_findings":   knownHit,
-		"notes":            r.Notes,
-		"not_decided":      r.NotDec,
-		"checker_cmd":      "bin/skyverif " + r.Prop + " " + r.Tier,
-		"trusted_base":     []string{"go/types", "go/ssa", "x/tools callgraph cha+vta v0.29.0", "checker rule tables"},
+		"rule":                "one obligation per (rule, construct) instance found in /repo's working tree on this run; distinct = distinct (rule,construct) keys; every obligation names a typed construct and is non-trivial (decided from SSA/CFG/call-graph facts, not from text)",
+		"samples":             samples,
+		"per_rule":            perRule,
+		"units_analysed":      r.Units,
+		"packages":            len(r.P.Pkgs),
+		"files":               r.P.NFiles,
+		"functions_loaded":    len(r.P.ModFns),
+		"known_findings":      knownHit,
+		"notes":               r.Notes,
+		"not_decided":         r.NotDec,
+		"checker_cmd":         "bin/skyverif " + r.Prop + " " + r.Tier,
+		"trusted_base":        []string{"go/types", "go/ssa", "x/tools callgraph cha+vta v0.29.0", "checker rule tables"},
 	}
 	for k, v := range r.Extra {
 		cov[k] = v
